@@ -144,6 +144,13 @@ def check_pipeline(spec):
         pipe.dataset_mode, pipe.return_ctx = mode_str, spec["return_ctx"]
     else:
         pipe = KC.KDSingleCollatorWrapper(colls[0], dataset_mode=mode_str, return_ctx=spec["return_ctx"])
+    # the same collator objects may be wrapped a second time with another configuration (e.g. train vs eval pipeline):
+    # that must not change what this pipeline does
+    other_mode = " ".join(reversed(mode_str.split(" ")))
+    if how == "wrapper":
+        KC.KDSingleCollatorWrapper(colls[0], dataset_mode=other_mode, return_ctx=not spec["return_ctx"])
+    elif how == "compose":
+        KC.KDComposeCollator(colls, dataset_mode=other_mode, return_ctx=not spec["return_ctx"])
     samples = _make_samples(spec)
     counter = {"batch": 0}
     real = base.default_collate
